@@ -31,6 +31,15 @@ Theorem C18_read_outcome_class : forall orc s e, read_many orc s <> PyErr e.
 Proof. exact read_outcome_class. Qed.
 Print Assumptions C18_read_outcome_class.
 
+(* Files (the importer, hy2py and the hy command read with skip_shebang=True): the shebang line is skipped by
+   HyReader.parse itself, outside try_parse_one_form; a shebang line without its end is a premature end. *)
+Theorem C18_file_read_terminates : forall orc s, read_many_file orc s <> OutOfFuel.
+Proof. exact read_file_terminates. Qed.
+Print Assumptions C18_file_read_terminates.
+Theorem C18_file_read_outcome_class : forall orc s e, read_many_file orc s <> PyErr e.
+Proof. exact read_file_outcome_class. Qed.
+Print Assumptions C18_file_read_outcome_class.
+
 Theorem C18_trichotomy : forall orc s,
   (exists ms, read_many orc s = Ok ms) \/ read_many orc s = Lex \/ read_many orc s = Premature.
 Proof. exact read_trichotomy. Qed.
@@ -51,6 +60,9 @@ Example C18_ex_lex : read_many toy [98; 34; 233; 34] = Lex.
 Proof. vm_compute. reflexivity. Qed.
 Example C18_ex_premature : read_many toy [40; 97] = Premature.
 Proof. vm_compute. reflexivity. Qed.
+Example C18_ex_shebang : read_many_file toy [35; 33; 120] = Premature
+  /\ read_many_file toy [35; 33; 120; 10; 97] = Ok [At 0 0 (Sym [97])] /\ read_many toy [35; 33; 120; 10; 97] = Lex.
+Proof. vm_compute. repeat split; reflexivity. Qed.
 Example C18_ex_ok : read_many toy [40; 97; 32; 39; 98; 41] =
   Ok [At 5 0 (Seq KExpr [At 4 4 (Sym [97]); At 2 1 (Seq KExpr [Sym [113; 117; 111; 116; 101]; At 1 1 (Sym [98])])])].
 Proof. vm_compute. reflexivity. Qed.
